@@ -499,6 +499,67 @@ def World.init (sideA sideB : String) (expA expB : Option (List String)) : Optio
     some { a := Side.init la fa expA, b := Side.init lb fb expB, dAB := 0, dBA := 0 }
   | _, _ => none
 
+/-! ## the 4-byte wire field, and what `allocate_subchannel_id` does next to it
+
+`Open/Data/Close` carry the subchannel id as `to_be4(scid)` (`encode.py`: `if not 0 <= value < 2**32: raise
+ValueError`).  `allocate_subchannel_id` itself knows no limit: `scid_num = self._next_subchannel_id;
+self._next_subchannel_id += 2; return scid_num` — the counter keeps its parity for ever and simply outgrows the
+field.  `SubchannelConnectorEndpoint.connect` then does `send_open(scid, …)`: `Outbound.build_record` takes the
+next sequence number, the record is appended to `_outbound_queue`, and `send_record → encode_record → to_be4`
+raises `ValueError` out of `connect()` *before* a `SubChannel` object exists: nothing is put on the wire, nothing is
+registered, the application's Deferred fails.  `connect`/`step`/`wstep` above are the functions without the
+limit (all their theorems are about them); `connectW`/`stepW`/`wstepW` below are what the driver runs: the same
+functions with that error branch.  They coincide as long as the counters are inside the field
+(`WV.Props.C13.bounded_is_unbounded_within_wire`), so every theorem above is a theorem about the driven model on
+those runs, and the id theorems are re-proved for *all* runs of the driven model (`ids_disjoint_wire`,
+`ids_never_wrap`).  (The sequence number travels in the same kind of field; the model does not bound it.) -/
+
+/-- `to_be4`'s exclusive upper bound (`WV.Props.C13.wire_limit_is_be4` ties it to the source) -/
+def wireLimit : Nat := 4294967296
+
+/-- `Manager.allocate_subchannel_id()`: the id, and the Manager afterwards -/
+def allocate (s : Side) : Nat × Side := (s.nextScid, { s with nextScid := s.nextScid + 2 })
+
+/-- `connect()` next to the wire limit: an id that does not fit is still taken from the counter
+    (`allocate`), `build_record` still consumes a sequence number, then `to_be4` raises `ValueError` -/
+def connectW (name : String) (k : PKind) (s : Side) : Res :=
+  if name = "" then (s, some .valueError) else
+  if s.nextScid < wireLimit then connect name k s else
+  let s1 := (allocate s).2
+  ({ s1 with nextSeq := s1.nextSeq + 1 }, some .valueError)
+
+def stepW (s : Side) (o : Op) : Res :=
+  match o with
+  | .connect name k => connectW name k s
+  | _ => step s o
+
+/-- `n` successful `connect()`s, each later closed from both ends, leave one trace in what this model keeps of a
+    Manager: the id counter (2 per allocation).  The harness fast-forwards the real Manager the same way
+    (`_next_subchannel_id += 2 * n`): the stand-in for the 2**31 opens nobody can wait for.
+    (`WV.Props.C13.ffwd_is_n_allocations`) -/
+def ffwd (n : Nat) (s : Side) : Side := { s with nextScid := s.nextScid + 2 * n }
+
+inductive WOpW where
+  | w (o : WOp)
+  | ffwdA (n : Nat) | ffwdB (n : Nat)
+  deriving Repr
+
+def wstepW (w : World) : WOpW → World × Option Err
+  | .w (.onA o) => let r := stepW w.a o; ({ w with a := r.1 }, r.2)
+  | .w (.onB o) => let r := stepW w.b o; ({ w with b := r.1 }, r.2)
+  | .w .deliverAB => wstep w .deliverAB
+  | .w .deliverBA => wstep w .deliverBA
+  | .w .parkAB => wstep w .parkAB
+  | .w .parkBA => wstep w .parkBA
+  | .w .lostA => wstep w .lostA
+  | .w .lostB => wstep w .lostB
+  | .ffwdA n => ({ w with a := ffwd n w.a }, none)
+  | .ffwdB n => ({ w with b := ffwd n w.b }, none)
+
+def wrunW (w : World) : List WOpW → World
+  | [] => w
+  | o :: os => wrunW (wstepW w o).1 os
+
 /-! ## driver (line protocol)
 
 ```
@@ -515,7 +576,13 @@ A|B parkrx open|data|close <seq> <scid> [<hex>]    (an explicit record is parked
 A|B select                                         (select(): the parked records are drained, oldest first, no acks)
 A|B lost                                           (the L2 connection is gone: its parked records are dropped and the
                                                     peer's cursor falls back to the first record not processed here)
+A|B ffwd <n>                                       (the id counter after n more allocations: `ffwd`)
+A|B turn                                           (an eventual-queue turn of that side that ran after the I/O following an
+                                                    API call or a delivery: the model defers nothing — `listen` hands queued
+                                                    data over inside the call, a record is handled when it is read — so a
+                                                    later turn has nothing left to do: no effect, state unchanged)
 ```
+`connect` lines run `connectW` (the 4-byte limit of the wire field included).
 Output: the effects of that operation on the side it ran on, the exception class if one was
 raised, then `| open=[scid:state …] pend=[hexname:n …]`.
 -/
@@ -605,13 +672,23 @@ def dstep (w : World) (line : String) : World × String :=
     | some _ => let r := wstep w .parkBA; (r.1, showStep w.a (r.1.a, r.2))
   | ["A", "lost"] => let r := wstep w .lostA; (r.1, showStep w.a (r.1.a, r.2))
   | ["B", "lost"] => let r := wstep w .lostB; (r.1, showStep w.b (r.1.b, r.2))
+  | ["A", "turn"] => (w, showStep w.a (w.a, none))
+  | ["B", "turn"] => (w, showStep w.b (w.b, none))
+  | ["A", "ffwd", n] =>
+    match n.toNat? with
+    | some k => let r := wstepW w (.ffwdA k); (r.1, showStep w.a (r.1.a, r.2))
+    | none => (w, "bad-op")
+  | ["B", "ffwd", n] =>
+    match n.toNat? with
+    | some k => let r := wstepW w (.ffwdB k); (r.1, showStep w.b (r.1.b, r.2))
+    | none => (w, "bad-op")
   | "A" :: rest =>
     match readOp? rest with
-    | some o => let r := wstep w (.onA o); (r.1, showStep w.a (r.1.a, r.2))
+    | some o => let r := wstepW w (.w (.onA o)); (r.1, showStep w.a (r.1.a, r.2))
     | none => (w, "bad-op")
   | "B" :: rest =>
     match readOp? rest with
-    | some o => let r := wstep w (.onB o); (r.1, showStep w.b (r.1.b, r.2))
+    | some o => let r := wstepW w (.w (.onB o)); (r.1, showStep w.b (r.1.b, r.2))
     | none => (w, "bad-op")
   | _ => (w, "bad-op")
 
